@@ -58,10 +58,14 @@ instance : Mul Frac := ⟨fun a b => if a.num = 0 || b.num = 0 then ⟨0, 1⟩ e
 instance : Add Frac := ⟨fun a b =>
   if a.num = 0 then b else if b.num = 0 then a
   else if a.den = b.den then ⟨a.num + b.num, a.den⟩
+  else if a.den % b.den = 0 then ⟨a.num + b.num * (a.den / b.den), a.den⟩
+  else if b.den % a.den = 0 then ⟨a.num * (b.den / a.den) + b.num, b.den⟩
   else ⟨a.num * b.den + b.num * a.den, a.den * b.den⟩⟩
 instance : Sub Frac := ⟨fun a b =>
   if b.num = 0 then a
   else if a.den = b.den then ⟨a.num - b.num, a.den⟩
+  else if a.den % b.den = 0 then ⟨a.num - b.num * (a.den / b.den), a.den⟩
+  else if b.den % a.den = 0 then ⟨a.num * (b.den / a.den) - b.num, b.den⟩
   else ⟨a.num * b.den - b.num * a.den, a.den * b.den⟩⟩
 instance : Div Frac := ⟨fun a b =>
   if b.num = 0 then ⟨0, 1⟩
@@ -116,11 +120,17 @@ def opsOf (t : Tab) : KFactor.Ops Float where
     ((t.X.find? fun e => same e.1 pr && same e.2.1 df).map (·.2.2)).getD nan
   spi := 1 / Float.sqrt (2 * 3.141592653589793)
 
-/-- as `opsOf`, but `norm.cdf` entries are matched to within 1e-12 (nearest first entry) -/
+/-- as `opsOf`, but `norm.cdf` entries are matched to within 1e-12 (the nearest entry) -/
 def opsOfFuzzy (t : Tab) : KFactor.Ops Float :=
   { opsOf t with
     normCdf := fun x =>
-      ((t.C.find? fun e => Float.abs (e.1 - x) ≤ 1e-12 * (1 + Float.abs x)).map (·.2)).getD nan }
+      match t.C.foldl (fun (best : Option (Float × Float)) e =>
+          let d := Float.abs (e.1 - x)
+          match best with
+          | none => some (d, e.2)
+          | some (bd, _) => if d < bd then some (d, e.2) else best) none with
+      | some (d, v) => if d ≤ 1e-12 * (1 + Float.abs x) then v else nan
+      | none => nan }
 
 instance : NatCast Float := ⟨Float.ofNat⟩
 instance : Zero Float := ⟨0.0⟩
